@@ -218,6 +218,74 @@ def weak_var_with_dist_case(col, seed):
     col.add(v)
 
 
+def gibbs_dtype_case(col, seed):
+    """a Gibbs draw whose dtype differs from the stored value's (integer-initialised variable, fractional draws): whatever value ends up stored,
+    every derived quantity stored next to it must be the one computed FROM that stored value (eager kernel sequence: Gibbs then RW)"""
+    k = lsl.Var(1, name="k")
+    mu = lsl.param(np.float32(0.0), lsl.Dist(tfd.Normal, loc=0.0, scale=5.0), name="mu")
+    scale = lsl.Var(lsl.Calc(lambda kk: 0.5 + kk, k), name="scale")
+    y = lsl.obs(np.array([0.3, -1.2, 2.0], np.float32), lsl.Dist(tfd.Normal, loc=mu, scale=scale), name="y")
+    model = lsl.GraphBuilder().add(y).build_model()
+    iface = gs.LieselInterface(model)
+    draws = [0.5, 2.5, 1.5, 2.5]
+    g = gs.GibbsKernel(["k"], lambda key, st: {"k": jnp.float32(draws[int(jax.random.randint(key, (), 0, 4))])})
+    r = gs.RWKernel(["mu"], initial_step_size=0.5)
+    for i, kk in enumerate((g, r)):
+        kk.set_model(iface)
+        kk.identifier = f"k{i}"
+    seq = KernelSequence([g, r])
+    key = jax.random.PRNGKey(seed)
+    ms, ks = model.state, seq.init_states(key, model.state)
+    ep = EpochConfig(EpochType.POSTERIOR, 6, 1, None).to_state(1, 0)
+    bad = None
+    for it in range(6):
+        key, sub = jax.random.split(key)
+        o = seq.transition(sub, ks, ms, ep)
+        ms, ks = o.model_state, o.kernel_states
+        kv, sv, m_ = float(ms["k_value"].value), float(ms["scale_value"].value), float(ms["mu_value"].value)
+        ll = float(np.sum(np.asarray(tfd.Normal(m_, 0.5 + kv).log_prob(np.array([0.3, -1.2, 2.0], np.float32)))))
+        got = float(np.sum(np.asarray(ms["y_log_prob"].value)))
+        if not (np.isclose(sv, 0.5 + kv) and np.isclose(got, ll, rtol=1e-4, atol=1e-4)):
+            bad = f"iteration {it}: stored k={kv}, stored scale={sv} (0.5 + k = {0.5 + kv}), stored log-lik {got}, recomputed from the stored values {ll}"
+            break
+    col.add(None if bad is None else {"sig": "native::coherence::gibbs_draw_of_other_dtype", "what": bad, "input": {"stored": "k = 1 (int)", "draws": draws, "seed": seed}})
+
+
+def pit_case(col, seed):
+    """a model with a probability-integral-transform variable (lsl.PIT: a caching node that is neither a Calc nor a Dist): u = Phi(y - mu) ~ Beta(a, 3);
+    after every transition of RW(mu) and RW(a) the stored PIT values and the stored log-probability are recomputed by hand from the stored mu, a"""
+    y_np = np.array([0.3, -0.8, 1.1], np.float32)
+    mu = lsl.param(np.float32(0.0), lsl.Dist(tfd.Normal, loc=0.0, scale=10.0), name="mu")
+    a = lsl.param(np.float32(2.0), lsl.Dist(tfd.Gamma, concentration=2.0, rate=1.0), name="a")
+    y = lsl.obs(y_np, lsl.Dist(tfd.Normal, loc=mu, scale=1.0), name="y")
+    u = lsl.PIT(y, distribution=lsl.Dist(tfd.Beta, concentration1=a, concentration0=3.0), name="u")
+    model = lsl.GraphBuilder().add(u).build_model()
+    iface = gs.LieselInterface(model)
+    k1, k2 = gs.RWKernel(["mu"], initial_step_size=0.4), gs.RWKernel(["a"], initial_step_size=0.3)
+    for i, k in enumerate((k1, k2)):
+        k.set_model(iface)
+        k.identifier = f"k{i}"
+    seq = KernelSequence([k1, k2])
+    key = jax.random.PRNGKey(seed)
+    ms, ks = model.state, seq.init_states(key, model.state)
+    ep = EpochConfig(EpochType.POSTERIOR, 8, 1, None).to_state(1, 0)
+    tr = jax.jit(seq.transition)
+    bad = None
+    for it in range(8):
+        key, sub = jax.random.split(key)
+        o = tr(sub, ks, ms, ep)
+        ms, ks = o.model_state, o.kernel_states
+        m_, a_ = np.float64(ms["mu_value"].value), np.float64(ms["a_value"].value)
+        u_want = np.asarray(tfd.Normal(np.float32(m_), 1.0).cdf(y_np), np.float64)
+        lp_want = float(tfd.Normal(0.0, 10.0).log_prob(np.float32(m_)) + tfd.Gamma(2.0, 1.0).log_prob(np.float32(a_)) + np.sum(np.asarray(tfd.Normal(np.float32(m_), 1.0).log_prob(y_np)))
+                        + np.sum(np.asarray(tfd.Beta(np.float32(a_), 3.0).log_prob(u_want.astype(np.float32)))))
+        u_got, lp_got = np.asarray(ms["u_value"].value, np.float64), float(np.asarray(ms["_model_log_prob"].value))
+        if not (np.allclose(u_got, u_want, rtol=1e-4, atol=1e-5) and np.isclose(lp_got, lp_want, rtol=1e-3, atol=1e-3)):
+            bad = f"iteration {it}: stored PIT values {u_got.round(4).tolist()} / log-prob {lp_got:.4f}; recomputed from the stored mu={m_:.4f}, a={a_:.4f}: {u_want.round(4).tolist()} / {lp_want:.4f}"
+            break
+    col.add(None if bad is None else {"sig": "native::coherence::pit_node", "what": bad, "input": {"model": "u = PIT(y) ~ Beta(a, 3), y ~ N(mu, 1)", "seed": seed}})
+
+
 def order_case(col, via_engine):
     """two deterministic Gibbs kernels on disjoint blocks whose composition is order-sensitive (a <- b + 1, then b <- 2a + 1);
     identifiers chosen so that alphabetical order differs from the configured order"""
@@ -263,6 +331,8 @@ def order_case(col, via_engine):
 
 def bounded(tier, seed):
     col = util.Collector()
+    from rtc.c01 import CORE_RULE, core_native
+    core_native(col, seed)
     for via_engine in (False, True):
         try:
             order_case(col, via_engine)
@@ -283,6 +353,14 @@ def bounded(tier, seed):
     except Exception as e:
         col.add({"sig": f"native::coherence::exception::{type(e).__name__}", "what": str(e)[:200], "input": {"scenario": "two update_state calls on one state object"}})
     try:
+        pit_case(col, seed + 8)
+    except Exception as e:
+        col.add({"sig": f"native::coherence::exception::{type(e).__name__}", "what": str(e)[:200], "input": {"scenario": "PIT node"}})
+    try:
+        gibbs_dtype_case(col, seed + 6)
+    except Exception as e:
+        col.add({"sig": f"native::coherence::exception::{type(e).__name__}", "what": str(e)[:200], "input": {"scenario": "Gibbs draw of another dtype"}})
+    try:
         weak_var_with_dist_case(col, seed + 4)
     except Exception as e:
         col.add({"sig": f"native::coherence::exception::{type(e).__name__}", "what": str(e)[:200], "input": {"scenario": "weak variable with distribution"}})
@@ -297,10 +375,10 @@ def bounded(tier, seed):
     dict_case(col, seed + 5, n)
     return {
         "evaluations": col.evals, "distinct_nontrivial": len(combos) + 1,
-        "rule": (f"BOUNDED: Liesel model (mu, log_sigma, derived sigma=exp(log_sigma), leaf pred=2mu+1, 5 observations) with kernel sequences RW(mu) + "
+        "rule": (CORE_RULE + "; " + f"BOUNDED: Liesel model (mu, log_sigma, derived sigma=exp(log_sigma), leaf pred=2mu+1, 5 observations) with kernel sequences RW(mu) + "
                  f"{{Gibbs, NUTS, IWLS}}(log_sigma), auto_update on and off, {n} jitted iterations each: after every single-kernel transition and every iteration the stored sigma, pred, "
                  "log-lik, log-prior, log-prob are compared with closed-form recomputation from the stored parameters (float64), and the other block must be bitwise "
-                 f"unchanged; same blockwise check on a dict model with RW + HMC; a model whose likelihood sits on a weak variable with a distribution (value path deeper than parameter path, single-key positions); a model built with the deprecated GraphBuilder.transform (a calculation directly on a value node) sampled with variable-name position keys; two update_state calls with different keys on one state object; two order-sensitive deterministic Gibbs kernels with "
+                 f"unchanged; same blockwise check on a dict model with RW + HMC; a model whose likelihood sits on a weak variable with a distribution (value path deeper than parameter path, single-key positions); a model built with the deprecated GraphBuilder.transform (a calculation directly on a value node) sampled with variable-name position keys; two update_state calls with different keys on one state object; a Gibbs kernel whose draws have another dtype than the stored value (eager); a model with a legacy PIT node (caching node outside the Calc / Dist hierarchy) under two RW kernels; two order-sensitive deterministic Gibbs kernels with "
                  f"identifiers whose alphabetical order differs from the configured order (bare KernelSequence and through EngineBuilder). seed={seed}"),
         "samples": [{"auto_update": False, "kernels": ["RW(mu)", "Gibbs(log_sigma)"]}],
         "exhaustive": False, "violations": col.violations,
